@@ -5,6 +5,7 @@
 //   - the two require(block.number < ...timeout...) checks of FxBridgeLogic.sol       [regex over the text]
 //   - every non-test caller of the two clean-ups, every non-test call site of
 //     SetLastObservedBlockHeight with its first argument, the order of the calls inside TryAttestation
+//
 // and writes coq/gen/Gen_TimeoutRules.v. Any shape it does not recognise is a hard error.
 package main
 
@@ -66,7 +67,9 @@ func cmpOf(cond ast.Expr, leftHint, rightHint, where string) string {
 	}
 	x, y := src(be.X), src(be.Y)
 	// both operands must be the bare field / variable: any arithmetic on either side is a shape this translator does not know
-	isLeft := func(e string) bool { return strings.HasSuffix(e, "."+leftHint) && strings.Count(e, ".") == 1 && !strings.ContainsAny(e, " +-*/()") }
+	isLeft := func(e string) bool {
+		return strings.HasSuffix(e, "."+leftHint) && strings.Count(e, ".") == 1 && !strings.ContainsAny(e, " +-*/()")
+	}
 	switch {
 	case isLeft(x) && y == rightHint:
 		return cmpName[be.Op]
